@@ -19,6 +19,12 @@ def _cleanup(res, keep=False):
     d = os.path.join(res['_out'], 'files')
     if not keep and os.path.isdir(d):
         shutil.rmtree(d)
+    if not keep:
+        # the model / decode logs of a passing run can be gigabytes in the thorough tier
+        for name in ('models.jsonl', 'decoded.jsonl'):
+            f = os.path.join(res['_out'], name)
+            if os.path.exists(f):
+                os.remove(f)
 
 
 def _rmtree(d):
@@ -115,6 +121,7 @@ def c03(tier, seed, case=None):
         guards['ring roles checked on exact-pool rings'] = (counters['role_checks_exact_pool'], 0 if case else 20)
         v.add_offline('check_c03.model-compare(%s)' % prof, counters['files'], distinct, samples, viols, counters, guards=guards)
         viols_any = viols_any or bool(viols)
+        _cleanup(r, keep=bool(viols))
     if not viols_any:
         _rmtree(gen_dir)
     return v
@@ -358,6 +365,7 @@ def c14(tier, seed, case=None):
                               'files whose indexed iteration had to seek': (counters['files_where_iteration_had_to_seek'], 0 if case else 50),
                               'interleaved / path iterations compared': (counters.get('interleaved_or_path_iterations', 0), 0 if case else n)})
         viols_any = viols_any or bool(viols)
+        _cleanup(r, keep=bool(viols))
     v.extra['exhaustive_scope'] = 'all permutations of the physical order for every n <= %d; filler contents and record geometry are sampled' % max_n
     if not viols_any:
         _rmtree(gen_dir)
